@@ -41,6 +41,22 @@ func like(c *h.Ctx, pat string, data ipld.Node) (constructed bool, matched bool)
 		return false, false
 	}
 	ok, _ := p.Match(data)
+	// a Constructor is a value: the same one used for a second and third policy (a rule fragment shared between
+	// policies, the rule and its negation side by side) gives statements over the same pattern
+	shared := policy.Like(".", pat)
+	for round := 1; round <= 3; round++ {
+		pr, rerr := policy.Construct(shared, policy.Not(shared))
+		if rerr != nil {
+			c.Fail("C13/constructor-reuse", "Like(%q) constructs alone, but the same Constructor value used again (round %d) fails: %v", pat, round, rerr)
+			break
+		}
+		m1, _ := policy.Policy{pr[0]}.Match(data)
+		m2, _ := policy.Policy{pr[1]}.Match(data)
+		if m1 != ok || m2 != !ok {
+			c.Fail("C13/constructor-reuse", "Like(%q): a statement built from a Constructor value that had been used before (round %d) gives like=%v not(like)=%v on %s; a fresh one gives like=%v", pat, round, m1, m2, val.FromNode(data), ok)
+			break
+		}
+	}
 	// the IPLD path must agree with the constructor path
 	lit := val.Str(pat)
 	_ = lit
